@@ -1,6 +1,6 @@
 # SPDX-License-Identifier: MIT
 from dataclasses import dataclass
-from typing import List, cast
+from typing import List, Optional, cast
 from xml.etree import ElementTree
 
 from ..exceptions import DecodeError, EncodeError, odxassert, odxraise, odxrequire
@@ -79,16 +79,36 @@ class TexttableCompuMethod(CompuMethod):
         elif len(matching_scales) > 1:
             odxraise(f"Texttable could not uniquely encode {physical_value!r}.", EncodeError)
 
-        scale = matching_scales[0]
+        internal_value = self.__internal_value_of_scale(matching_scales[0])
+        if internal_value is not None:
+            return internal_value
+
+        odxraise(f"Texttable compu method could not encode '{physical_value!r}'.", EncodeError)
+
+    @staticmethod
+    def __internal_value_of_scale(scale: CompuScale) -> Optional[AtomicOdxType]:
+        """The internal value which represents the text of a scale:
+        the inverse value if it is specified, else a limit of the
+        scale. The latter must be inside the range of the scale,
+        i.e. limits of interval type OPEN are excluded (for integers,
+        their neighbour is used)
+        """
         if scale.compu_inverse_value is not None and (civ :=
                                                       scale.compu_inverse_value.value) is not None:
             return civ
-        elif scale.lower_limit is not None and scale.lower_limit._value is not None:
-            return scale.lower_limit._value
-        elif scale.upper_limit is not None and scale.upper_limit._value is not None:
-            return scale.upper_limit._value
 
-        odxraise(f"Texttable compu method could not encode '{physical_value!r}'.", EncodeError)
+        candidates: List[AtomicOdxType] = []
+        for limit, step in ((scale.lower_limit, 1), (scale.upper_limit, -1)):
+            if limit is not None and limit._value is not None:
+                candidates.append(limit._value)
+                if isinstance(limit._value, int) and not isinstance(limit._value, bool):
+                    candidates.append(limit._value + step)
+
+        for candidate in candidates:
+            if scale.applies(candidate):
+                return candidate
+
+        return None
 
     def convert_internal_to_physical(self, internal_value: AtomicOdxType) -> AtomicOdxType:
         scales = []
@@ -127,7 +147,8 @@ class TexttableCompuMethod(CompuMethod):
         if (cpti := self.compu_internal_to_phys) is not None:
             scales = cpti.compu_scales
 
-        return any(scale.compu_const.value == physical_value
+        return any(scale.compu_const.value == physical_value and
+                   self.__internal_value_of_scale(scale) is not None
                    for scale in scales
                    if scale.compu_const is not None)
 
